@@ -237,8 +237,15 @@ def run(ctx):
                                     huge = (a, p_["id"], c_, math.sqrt(v_))
                                 k_ += 1
             if huge:
-                ctx.violation({"kind": "E:ill-posed", "gkf": txt, "planted": meta["planted"], "algorithm": huge[0], "point": huge[1], "coordinate": huge[2], "stdev_mm": huge[3]},
-                              "%s reports coordinate %s of point %s as adjusted with a standard deviation of %.0f mm instead of diagnosing it as indeterminable" % (huge[0], huge[2], huge[1], huge[3])); bad += 1
+                # with a planted datum deficiency this is one more face of the recorded finding: every algorithm removes the dependent
+                # unknowns it meets last in its own order, and what one of them keeps can be practically undetermined - recognised by
+                # the algorithms keeping different sets of coordinates on this very input
+                kept = {a: sorted((p_["id"], c_) for p_ in outs[a]["res"]["adjusted"] for c_ in "xyz" if c_ in p_) for a in enet.ALGS}
+                key = "C20:removed-points-depend-on-algorithm" if exp != "adjust" and len(set(map(tuple, kept.values()))) > 1 else None
+                if ctx.violation({"kind": "E:ill-posed", "gkf": txt, "planted": meta["planted"], "algorithm": huge[0], "point": huge[1], "coordinate": huge[2], "stdev_mm": huge[3]},
+                                 "%s reports coordinate %s of point %s as adjusted with a standard deviation of %.0f mm instead of diagnosing it as indeterminable" % (huge[0], huge[2], huge[1], huge[3]),
+                                 key=key) is not False:
+                    bad += 1
                 continue
             ref = outs["gso"]["res"]
             for a in enet.ALGS[0:1] + enet.ALGS[2:]:
